@@ -134,6 +134,16 @@ func init() {
 		"verif_ite_i64": func(fr *frame, a []value) value { return fr.i.ite(a[0], a[1], a[2]) },
 		"verif_ite_u64": func(fr *frame, a []value) value { return fr.i.ite(a[0], a[1], a[2]) },
 		"verif_ite_f64": func(fr *frame, a []value) value { return fr.i.ite(a[0], a[1], a[2]) },
+		"verif_same_f64": func(fr *frame, a []value) value {
+			// identical as IEEE values (NaN equals NaN): SMT "=" on the FP sort
+			i := fr.i
+			x, y := i.term(a[0]), i.term(a[1])
+			if x == y {
+				return true
+			}
+			c := i.ex.Ctx
+			return i.mkSym(c.Or(c.FPCmp("fp.eq", x, y), c.And(c.FPIsNaN(x), c.FPIsNaN(y))), types.Bool)
+		},
 		"verif_thorough": func(fr *frame, a []value) value { return fr.i.ex.Tier == "thorough" },
 		"verif_param": func(fr *frame, a []value) value {
 			v, ok := fr.i.ex.Params[argString(a[0])]
